@@ -319,16 +319,29 @@ func c03ReplyVerbatim(p *Prog, r *Report) {
 		bad = append(bad, "no reply function writes the backend's raw frame with EncodeRawFrame")
 	}
 	// OnResult passes its raw parameter to the raw reply function
-	okPass := false
-	eachCall(onRes, func(c ssa.CallInstruction) {
-		if f := c.Common().StaticCallee(); f != nil && replyFuncs(p, req)[f] {
-			for _, a := range c.Common().Args {
-				if a == ssa.Value(onRes.Params[1]) {
-					okPass = true
+	// (directly, or through a method of the request that passes its own parameter on)
+	var passes func(fn *ssa.Function, raw ssa.Value, depth int) bool
+	passes = func(fn *ssa.Function, raw ssa.Value, depth int) bool {
+		ok := false
+		eachCall(fn, func(c ssa.CallInstruction) {
+			f := c.Common().StaticCallee()
+			if f == nil {
+				return
+			}
+			for i, a := range c.Common().Args {
+				if a != raw {
+					continue
+				}
+				if replyFuncs(p, req)[f] {
+					ok = true
+				} else if depth > 0 && f.Parent() == nil && recvNamed(f) == req && i < len(f.Params) && f.Blocks != nil && passes(f, f.Params[i], depth-1) {
+					ok = true
 				}
 			}
-		}
-	})
+		})
+		return ok
+	}
+	okPass := passes(onRes, onRes.Params[1], 2)
 	if !okPass {
 		bad = append(bad, "OnResult does not hand the backend's frame to the reply function")
 	}
